@@ -1,9 +1,11 @@
 import Proofs.DkgAnswer
+import Proofs.DkgOnce
+import Proofs.DkgJointEnd
 
 /-! Helper definitions and lemmas for `Props/C08Dealer.lean` (a registered complaint stays registered). -/
 
 namespace Props.C08
-open Model Model.Dkg Proofs.DkgCommute
+open Model Model.Dkg Proofs.DkgCommute Proofs.DkgAgree
 
 variable {O : Ops}
 
@@ -40,5 +42,75 @@ theorem any_isBcast (l : List Out) : l.any isBcast = true ↔ ∃ m, Out.bcast m
     exact ⟨_, hx⟩
   · rintro ⟨m, hm⟩
     exact List.any_eq_true.mpr ⟨_, hm, rfl⟩
+
+/-! ### the dealer's own instance: which deliveries can change the complaint table or broadcast -/
+
+theorem dealer_bcast_cases (s : St O) (hmd : s.me = s.dealer) (o : Nat) (m : Bytes) :
+    FvssQ.bcastBody s o m = FvssQ.receiveComplaint s o (m.drop 1) ∨
+      ((FvssQ.bcastBody s o m).1.complaints = s.complaints ∧ ∀ x, Out.bcast x ∉ (FvssQ.bcastBody s o m).2) := by
+  unfold FvssQ.bcastBody
+  by_cases ho : s.me = o
+  · rw [if_pos ho]; right; simp
+  · have hod : o ≠ s.dealer := by rw [← hmd]; exact fun h => ho h.symm
+    rw [if_neg ho]
+    by_cases hd : s.disqualified = true
+    · rw [if_pos hd]; right; simp
+    · rw [if_neg hd]
+      simp only []
+      rw [if_neg hod]
+      by_cases hl : m.length = 0
+      · rw [if_pos hl]; right; simp
+      · rw [if_neg hl]
+        by_cases h1 : m.headD 0 = tagVerifVec
+        · rw [if_pos h1]; right
+          unfold FvssQ.receiveVerifVector; rw [if_pos hod]; simp
+        · rw [if_neg h1]
+          by_cases h2 : m.headD 0 = tagComplaint
+          · rw [if_pos h2]; left; rfl
+          · rw [if_neg h2]
+            by_cases h3 : m.headD 0 = tagAnswer
+            · rw [if_pos h3]; right
+              unfold FvssQ.receiveComplaintAnswer; rw [if_pos hod]; simp
+            · rw [if_neg h3]; right; simp
+
+theorem dealer_priv_noop (s : St O) (hmd : s.me = s.dealer) (o : Nat) (m : Bytes) :
+    FvssQ.privBody s o m = (s, []) := by
+  unfold FvssQ.privBody
+  by_cases ho : s.me = o
+  · rw [if_pos ho]
+  · have hod : o ≠ s.dealer := by rw [← hmd]; exact fun h => ho h.symm
+    rw [if_neg ho]
+    split
+    · rfl
+    · unfold FvssQ.receiveShare; rw [if_pos hod]
+
+theorem reg_buildComplaint (s : St O) (k : Nat) (h : Reg s k) : Reg (FvssQ.buildComplaint s).1 k := by
+  unfold FvssQ.buildComplaint
+  repeat' (first | split | (simp only []; split))
+  all_goals first
+    | exact h
+    | exact reg_setC _ _ _ _ h (fun _ => rfl)
+    | exact reg_congr _ _ _ rfl (reg_setC _ _ _ _ h (fun _ => rfl))
+
+theorem reg_tstep (s : St O) (k : Nat) (h : Reg s k) : Reg (tstep s) k := by
+  rw [tstep_eq]
+  repeat' split
+  all_goals first
+    | exact reg_congr _ _ _ rfl h
+    | exact reg_buildComplaint _ k (reg_congr _ _ _ rfl h)
+
+theorem evStep_dealer (s : St O) (hmd : s.me = s.dealer) (ev : Ev) : (evStep s ev).me = (evStep s ev).dealer := by
+  cases ev with
+  | dl e =>
+    have c := step_cfg_any s e
+    show (step s e).me = (step s e).dealer
+    rw [c.1, c.2.1]; exact hmd
+  | timeout =>
+    show (tstep s).me = (tstep s).dealer
+    rw [tstep_eq]
+    repeat' (first | split | (simp only []; split))
+    all_goals first
+      | exact hmd
+      | (have c := bc_cfg (stFlag s); rw [c.1, c.2.1]; exact hmd)
 
 end Props.C08
